@@ -881,6 +881,9 @@ def execute(plan):
         else:
             r1, r2 = oj["value"]
             check_views(viol, "job-2nd-execute", r2, n, simulated=True, single_execution=False)
+            # ... and the result of the first complete execution, still held by the caller,
+            # read again now: its views must still describe its own recorded readouts
+            check_views(viol, "job-1st-result-held-across-2nd-execute", r1, n, simulated=True, single_execution=False)
             # C08 on the re-executed job: one readout per visit, in order, for this
             # execution too, and every subcircuit's tallies count exactly its own readouts
             for which_, rr_ in (("job-1st-complete-execute", r1), ("job-2nd-execute", r2)):
@@ -888,13 +891,14 @@ def execute(plan):
                 if seq2 != list(M.visits):
                     viol.add("C08", "visit_sequence", "mismatch", which_, "got %r want %r" % (seq2[:20], list(M.visits)[:20]))
                     break
-            for i, sc in enumerate(r2.subcircuits):
+            for which_, rr_ in (("job-2nd-execute", r2), ("job-1st-result-held-across-2nd-execute", r1)):
+              for i, sc in enumerate(rr_.subcircuits):
                 want = np.zeros(2**n)
                 for r in sc.readouts:
                     want[r.as_int] += 1
                 rf = np.asarray(sc.relative_frequency_by_int)
                 if rf.shape != want.shape or np.abs(rf - want).max() > 0:
-                    viol.add("C08", "relative_frequency", "mismatch", "job-2nd-execute", "subcircuit %d: tallies %r, its readouts count %r" % (i, rf.tolist()[:8], want.tolist()[:8]))
+                    viol.add("C08", "relative_frequency", "mismatch", which_, "subcircuit %d: tallies %r, its readouts count %r" % (i, rf.tolist()[:8], want.tolist()[:8]))
                     break
             log.append(("job2", hexdigest([[int(r.as_int) for r in sc.readouts] for sc in r2.subcircuits])))
 
